@@ -79,6 +79,7 @@ impl<'a> StringLexer<'a> {
                         self.back()?;
                         let _start = self.get_offset();
                         let mut char_code: u16 = 0;
+                        let mut digits = 0;
 
                         // A character code must follow. 1-3 numbers.
                         for _ in 0..3 {
@@ -86,9 +87,14 @@ impl<'a> StringLexer<'a> {
                             if (b'0'..=b'7').contains(&c) {
                                 self.next_byte()?;
                                 char_code = char_code * 8 + (c - b'0') as u16;
+                                digits += 1;
                             } else {
                                 break;
                             }
+                        }
+                        if digits == 0 {
+                            // not an escape sequence: the backslash is ignored
+                            return self.next_lexeme();
                         }
                         Some(char_code as u8)
                     }
@@ -107,6 +113,13 @@ impl<'a> StringLexer<'a> {
                 } else {
                     Ok(Some(b')'))
                 }
+            },
+            b'\r' => {
+                // an unescaped end-of-line marker (CR or CR LF) reads as a single LF
+                if let Ok(b'\n') = self.peek_byte() {
+                    let _ = self.next_byte();
+                }
+                Ok(Some(b'\n'))
             },
 
             c => Ok(Some(c))
@@ -178,7 +191,7 @@ impl<'a> HexStringLexer<'a> {
 
     fn next_non_whitespace_char(&mut self) -> Result<u8> {
         let mut byte = self.read_byte()?;
-        while byte == b' ' || byte == b'\t' || byte == b'\n' || byte == b'\r' || byte == b'\x0c' {
+        while byte == 0 || byte == b' ' || byte == b'\t' || byte == b'\n' || byte == b'\r' || byte == b'\x0c' {
             byte = self.read_byte()?;
         }
         Ok(byte)
